@@ -871,8 +871,9 @@ class StmtMixin(object):
         finally:
             self.obligations, self.suppress = saved[0], saved[1]
             self._auto_counter = saved[2]
-        outs = [end] + inner.continues + inner.breaks + [s for s, _ in inner.returns] + \
-               [s for s, _ in inner.raises]
+        # only paths that reach the next iteration matter for the loop-head havoc: paths leaving the loop
+        # (break / return / raise) carry their own state out of it in the real pass
+        outs = [end] + inner.continues
         fields, ghosts = set(), set()
         cont = False
         for s in outs:
